@@ -21,6 +21,16 @@ with the data (scales 1e-100 .. 1e100; e is ABSOLUTE), r int / float / binding /
 600 / 1030 (2000 thorough), d up to 8 (10), m up to rho + 5, Gaussian and uniform cores, ragged bond-rank profiles (rho a
 list, m >= max), 12 (37) further generator seeds.
 
+Gap closure (documented FORMS of the arguments):
+* C20.svd_incomplete.arg_forms    the cap r "(int, float)" as Python float EQUAL to the rank (2.0 for rank 2: the cap wins the minimum
+                                  against the numerical rank), above / below it, non-integer (rho + 0.5, rho - 0.5), as NumPy float64 /
+                                  float32 / int64 / int32 scalar, 1e12 as float / int / NumPy float, the default; e as float / NumPy
+                                  float64 / float32 / 0-d array / 0; expected rank of sample_tt as np.int64 / np.int32; I, idx, idx_many
+                                  as returned / Python lists / int32 / int64 / Fortran-ordered: no exception, well-formed, ranks <= int(cap),
+                                  arguments unchanged, recovery when cap >= rho.
+* C20.matrix_skeleton.cap_forms   the same forms of cap and accuracy directly on matrix_skeleton (give_to m / l / r, rel both): selected
+                                  rank = min(int(cap), rank), ||A - U V|| = discarded singular values (own SVD).
+
 Conditioning rule ("almost all tensors"): a case is SKIPped unless every unfolding of the target has
 sigma_r / sigma_1 >= 1e-3 at its generic rank r AND every sampled sub-block that the recovery inverts (the
 m sampled columns of unfolding k restricted to the sampled rows) has sigma_r / sigma_1 >= 1e-4.
@@ -35,7 +45,9 @@ BUDGET = (60, 600)
 BOUNDS = ('d in 2..4, n_k in m..m+2 (<= 7), rho in 1..3, m in rho..rho+2, cap in {rho, rho+1, 1e12}, generator seeds '
           '0..2, Gaussian cores: ~100 configs (quick, caps and seeds rotated) / ~900 (thorough, full product); layout clause d <= 4, n <= 6, m <= 6 incl. n_k < m; '
           'audit part: scales 1e-100..1e100 with e scaled along, e in 1e-13..1e-8, defaults, float caps, argument forms of sample_tt (4 shape forms, '
-          'Generator / None seeds, default r), mode sizes up to 1030 (2000), d up to 8 (10), m up to rho+5, uniform cores, ragged rank profiles')
+          'Generator / None seeds, default r), mode sizes up to 1030 (2000), d up to 8 (10), m up to rho+5, uniform cores, ragged rank profiles; '
+          'argument forms: 19 cap forms (int / float / NumPy scalars equal to, above, below the rank, fractional, 1e12, default) x 6 e forms x '
+          '5 index forms x 3 forms of the expected rank on 6 (10) configurations; matrix_skeleton: 5 (8) matrices x 19 cap forms x 6 e forms')
 
 FUNCS = ('svd.svd_incomplete', 'sample.sample_tt')
 
@@ -229,6 +241,129 @@ def recover(n, rho, m, cap, tseed, sseed, scale=1.0, e=None, kind='gauss', nform
     return FAIL(f'relative error {rel:.3e} > 1e-6, ranks {rk}') if not rel <= 1e-6 else PASS
 
 
+CAP_FORMS = ('int_eq', 'float_eq', 'np_float64_eq', 'np_float32_eq', 'np_int64_eq', 'np_int32_eq', 'float_above', 'float_frac',
+             'np_float64_above', 'np_int64_above', 'float_m', 'big_float', 'big_int', 'np_big_float', 'default',
+             'float_below', 'np_float64_below', 'np_int64_below', 'float_frac_below')
+
+
+def _cap(form, rho, m):
+    """(value handed over as r, integer cap it stands for); form 'default' hands nothing over.  *_eq: the cap EQUALS the rank
+    (the cap decides the minimum against the numerical rank), *_above: rho + 1, float_frac: rho + 0.5 (stands for rho), float_m: the
+    expected rank m as a float, big_*: 1e12; *_below: rho - 1 resp. rho - 0.5 (binding below the rank: structure only)."""
+    v = {'eq': rho, 'above': rho + 1, 'below': max(1, rho - 1)}
+    table = {'int_eq': int(rho), 'float_eq': float(rho), 'np_float64_eq': np.float64(rho), 'np_float32_eq': np.float32(rho),
+             'np_int64_eq': np.int64(rho), 'np_int32_eq': np.int32(rho), 'float_above': float(rho + 1), 'float_frac': rho + 0.5,
+             'np_float64_above': np.float64(rho + 1), 'np_int64_above': np.int64(rho + 1), 'float_m': float(m),
+             'big_float': 1.E+12, 'big_int': 10 ** 12, 'np_big_float': np.float64(1.E+12), 'default': None,
+             'float_below': float(v['below']), 'np_float64_below': np.float64(v['below']), 'np_int64_below': np.int64(v['below']),
+             'float_frac_below': max(1.0, rho - 0.5)}
+    x = table[form]
+    return x, (10 ** 12 if x is None else int(x))
+
+
+def _acc(form, scale=1.0):
+    """the accuracy e in the form: float / NumPy float64 / float32 scalar / 0-d array / the int 0 (no truncation by accuracy)"""
+    return {'float': 1e-10 * scale, 'np_float64': np.float64(1e-10 * scale), 'np_float32': np.float32(1e-10 * scale),
+            'array0d': np.array(1e-10 * scale), 'int0': 0, 'float0': 0.0}[form]
+
+
+@clause('C20.svd_incomplete.arg_forms', funcs=FUNCS + ('svd.matrix_skeleton',))
+def svd_incomplete_arg_forms(n, rho, m, tseed, sseed, capform, eform='float', idxform='asis', mform='int'):
+    """The documented FORMS of the rank cap r "(int, float)" and of the accuracy: caps equal to / above / below the rank given as
+    Python float, non-integer float, NumPy float64 / float32 / int64 / int32 scalars, the float default, 1e12 as int; e as
+    float / NumPy scalar / 0-d array / the integer 0 (with a binding cap); the expected rank of sample_tt as int / np.int64 /
+    np.int32 (same samples as with the int); the index-like arguments I, idx, idx_many as returned / Python lists / int32 /
+    int64 arrays / Fortran-ordered I.  Every form returns (no TypeError), the result is a well-formed finite TT of the tensor's
+    shape with ranks <= the integer part of the cap, the arguments are unchanged, and if the cap is at least rho the result
+    equals the tensor (relative 1e-6, conditioning rejection as in C20.svd_incomplete.recover)."""
+    T, I, idx, idx_many, y = _setup(n, rho, m, tseed, sseed)
+    mm = {'int': int(m), 'np_int64': np.int64(m), 'np_int32': np.int32(m)}[mform]
+    try:
+        I2, idx2, many2 = teneva.sample_tt(list(n), mm, sseed)
+    except Exception as ex:      # noqa: BLE001
+        return FAIL(f'sample_tt(n, r={mm!r} [{type(mm).__name__}]) raised {type(ex).__name__}: {str(ex)[:200]}')
+    if not (np.array_equal(I, I2) and np.array_equal(idx, idx2) and np.array_equal(idx_many, many2)):
+        return FAIL(f'sample_tt with r = {mm!r} [{type(mm).__name__}] differs from r = {m} [int]')
+    rmax = rho if isinstance(rho, int) else max(rho)            # rho may be the list of bond ranks
+    cap, icap = _cap(capform, rmax, m)
+    if eform in ('int0', 'float0') and (icap > rmax or not isinstance(rho, int)):
+        return SKIP('e = 0 keeps rounding-level singular values unless the cap binds')
+    e = _acc(eform)
+    if idxform == 'lists':
+        I_, idx_, many_ = I, [int(v) for v in idx], [int(v) for v in idx_many]
+    elif idxform in ('int32', 'int64'):
+        dt = np.int32 if idxform == 'int32' else np.int64
+        I_, idx_, many_ = I.astype(dt), np.asarray(idx).astype(dt), np.asarray(idx_many).astype(dt)
+    elif idxform == 'I_fortran':
+        I_, idx_, many_ = np.asfortranarray(I), idx, idx_many
+    else:
+        I_, idx_, many_ = I, idx, idx_many
+    snap = gen.snapshot([I_, y, idx_, many_])
+    what = f'svd_incomplete(e={e!r} [{type(e).__name__}], r={cap!r} [{type(cap).__name__}], index arguments {idxform})'
+    try:
+        Z = teneva.svd_incomplete(I_, y, idx_, many_, e) if cap is None else teneva.svd_incomplete(I_, y, idx_, many_, e, cap)
+    except Exception as ex:      # noqa: BLE001 - exception freedom for every documented form is the clause
+        return FAIL(f'{what} raised {type(ex).__name__}: {str(ex)[:200]}')
+    if gen.snapshot([I_, y, idx_, many_]) != snap:
+        return FAIL(f'{what} changed its arguments')
+    msg = gen.wf(Z, n)
+    if msg:
+        return FAIL(f'{what}: not well-formed: {msg}')
+    if not gen.finite(Z):
+        return FAIL(f'{what}: non-finite cores')
+    rk = [G.shape[2] for G in Z[:-1]]
+    if max(rk) > icap:
+        return FAIL(f'{what}: ranks {rk} exceed the cap')
+    if icap < rmax:
+        return PASS
+    bad = _well_conditioned(T, n, rho, I, idx, idx_many)
+    if bad:
+        return SKIP(bad)
+    D = gen.dense(Z)
+    rel = float(np.linalg.norm(D - T) / np.linalg.norm(T))
+    return FAIL(f'{what}: relative error {rel:.3e} > 1e-6, ranks {rk}') if not rel <= 1e-6 else PASS
+
+
+@clause('C20.matrix_skeleton.cap_forms', funcs=('svd.matrix_skeleton',))
+def matrix_skeleton_cap_forms(mrows, ncols, rank, seed, capform, eform, give_to, rel):
+    """matrix_skeleton (the decomposition behind the first core and every compressed block of svd_incomplete) for the same forms
+    of the cap and the accuracy on an mrows x ncols matrix of the given rank with singular values 2^0 .. 2^-(rank-1): factors
+    U [mrows, q], V [q, ncols] with 1 <= q <= integer part of the cap (never a TypeError), q = min(cap, rank) when e = 1e-10
+    separates the singular values from the rounding level, and ||A - U V||_F equal to the discarded singular values (own SVD)."""
+    g = gen.rng('C20.skel', mrows, ncols, rank, seed)
+    Qa, _ = np.linalg.qr(g.normal(size=(mrows, mrows)))
+    Qb, _ = np.linalg.qr(g.normal(size=(ncols, ncols)))
+    sv = 2.0 ** -np.arange(rank)
+    A = (Qa[:, :rank] * sv) @ Qb[:, :rank].T * 3.0
+    cap, icap = _cap(capform, rank, min(mrows, ncols))
+    e = _acc(eform)
+    what = f'matrix_skeleton(e={e!r} [{type(e).__name__}], r={cap!r} [{type(cap).__name__}], rel={rel}, give_to={give_to})'
+    snap = gen.snapshot(A)
+    try:
+        if cap is None:
+            U, V = teneva.matrix_skeleton(A, e, rel=rel, give_to=give_to)
+        else:
+            U, V = teneva.matrix_skeleton(A, e, cap, rel=rel, give_to=give_to)
+    except Exception as ex:      # noqa: BLE001
+        return FAIL(f'{what} raised {type(ex).__name__}: {str(ex)[:200]}')
+    if gen.snapshot(A) != snap:
+        return FAIL(f'{what} changed the matrix')
+    if not (isinstance(U, np.ndarray) and isinstance(V, np.ndarray) and U.ndim == 2 and V.ndim == 2 and U.shape[0] == mrows
+            and V.shape[1] == ncols and U.shape[1] == V.shape[0]):
+        return FAIL(f'{what}: factor shapes {getattr(U, "shape", None)}, {getattr(V, "shape", None)}')
+    q = U.shape[1]
+    if not 1 <= q <= min(mrows, ncols, max(1, icap)):
+        return FAIL(f'{what}: selected rank {q} outside 1 .. min(size, cap)')
+    if eform not in ('int0', 'float0') and q != min(rank, max(1, icap)):
+        return FAIL(f'{what}: selected rank {q}, the matrix has rank {rank} (singular values 3 * 2^-k, then rounding level)')
+    s = np.linalg.svd(A, compute_uv=False)
+    tail = float(np.sqrt(np.sum(s[q:] ** 2)))
+    err = float(np.linalg.norm(A - U @ V))
+    if not (np.all(np.isfinite(U)) and np.all(np.isfinite(V)) and abs(err - tail) <= 1e-12 * s[0]):
+        return FAIL(f'{what}: ||A - U V|| = {err:.3e}, discarded singular values {tail:.3e}')
+    return PASS
+
+
 def _configs(tier, seed):
     big = tier == 'thorough'
     g = gen.rng('C20', seed)
@@ -317,5 +452,40 @@ def cases(tier, seed):
     for sseed in range(3, 40 if big else 15):
         yield 'C20.svd_incomplete.recover', dict(n=[4, 5, 4], rho=2, m=3 + sseed % 2, cap=(2, 10 ** 12)[sseed % 2], tseed=ts(), sseed=sseed * 7919,
                                                  seedform=('int', 'gen')[sseed % 3 == 0])
+    # ---- gap closure: the documented FORMS of rank caps / accuracies / index-like arguments (float cap that equals the rank, ...)
+    ga = gen.rng('C20.forms', seed)
+    fcfg = [([6, 7], 2, 4), ([5, 6, 7], 2, 4), ([6, 5, 7, 6], 3, 5), ([4, 5], 2, 2), ([4, 4, 4], 1, 2), ([5, 5, 5], 3, 3)] \
+        + ([([3, 3, 3, 3, 3], 2, 3), ([12, 10, 11], 3, 4), ([7, 7], 4, 6), ([4, 5, 4, 5], [2, 3, 1], 3)] if big else [])
+    for j, (n, rho, m) in enumerate(fcfg):
+        rmax = rho if isinstance(rho, int) else max(rho)
+        if not isinstance(rho, int):
+            for cf in ('float_eq', 'np_float64_eq', 'float_frac', 'np_int64_above'):
+                yield 'C20.svd_incomplete.arg_forms', dict(n=n, rho=rho, m=m, tseed=int(ga.integers(1 << 30)), sseed=j, capform=cf)
+            continue
+        for k, cf in enumerate(CAP_FORMS):
+            if big or j < 3 or (k + j) % 3 == 0 or cf == 'float_eq':
+                for sd in range(3 if big else 1):
+                    yield 'C20.svd_incomplete.arg_forms', dict(n=n, rho=rmax, m=m, tseed=int(ga.integers(1 << 30)), sseed=j + sd, capform=cf)
+        for k, ef in enumerate(('np_float64', 'np_float32', 'array0d', 'int0', 'float0')):
+            for cf in (('int_eq', 'float_eq', 'np_int64_eq', 'float_above', 'default', 'float_below') if big else
+                       ('float_eq', ('int_eq', 'float_above', 'np_int64_eq')[(j + k) % 3])[:2 if j == 0 else 1]):
+                if big or j % 2 == 0:
+                    yield 'C20.svd_incomplete.arg_forms', dict(n=n, rho=rmax, m=m, tseed=int(ga.integers(1 << 30)), sseed=j, capform=cf, eform=ef)
+        for k, xf in enumerate(('lists', 'int32', 'int64', 'I_fortran')):
+            for cf in (('float_eq', 'np_int32_eq', 'default', 'float_frac') if big else (('float_eq', 'np_int32_eq', 'default')[(j + k) % 3],)):
+                if big or j % 2 == 1:
+                    yield 'C20.svd_incomplete.arg_forms', dict(n=n, rho=rmax, m=m, tseed=int(ga.integers(1 << 30)), sseed=j, capform=cf, idxform=xf)
+        for mf in ('np_int64', 'np_int32'):
+            if big or j < 2:
+                yield 'C20.svd_incomplete.arg_forms', dict(n=n, rho=rmax, m=m, tseed=int(ga.integers(1 << 30)), sseed=j, capform='np_float64_eq',
+                                                           mform=mf)
+    k = 0
+    for (mr, nc, rank) in ((6, 4, 2), (4, 6, 3), (5, 5, 5), (7, 3, 1), (1, 5, 1)) + (((12, 9, 4), (3, 8, 3), (2, 2, 2)) if big else ()):
+        for cf in CAP_FORMS:
+            for ef in ('float', 'np_float64', 'np_float32', 'array0d', 'int0', 'float0'):
+                k += 1
+                if big or ef == 'float' or k % 4 == 0:
+                    yield 'C20.matrix_skeleton.cap_forms', dict(mrows=mr, ncols=nc, rank=rank, seed=k % 3, capform=cf, eform=ef,
+                                                                give_to='mlr'[k % 3], rel=bool(k % 2))
     # DOUBTFUL (disabled): sample_tt documents n as "list or np.ndarray of int/float", but float mode sizes raise
     # TypeError ('float' object cannot be interpreted as an integer) in range(n_k): sample_tt([4.0, 5.0], 2, seed=0).
